@@ -437,12 +437,42 @@ def coverage_level1(ck, res):
                 mid["no_flush_in_progress (nothing waited, worker busy or stopped)"] += 1
         mid["scripts_with_mreq"] += 1 if has else 0
     ck.extra.setdefault("input_distribution", {})["request_against_a_swap_in_progress"] = mid
+    # round 8 (seeded C02-h): how much ACCOUNTED size piles up in one single-worker service between two swaps (the requests registered as
+    # waiting, as observed), against the 50 MiB of the unused constant BANDWITH_LIMIT of writer/service
+    pile = {"scripts_with_the_overload_scenario": 0, "scripts_piling_up_more_than_50MiB_between_two_swaps": 0, "of_those_while_a_Do_is_blocked": 0,
+            "largest_pile_MiB": 0, "histogram_MiB": {"<1": 0, "1..50": 0, "50..100": 0, ">100": 0}}
+    for c in cases:
+        pile["scripts_with_the_overload_scenario"] += 1 if "overload" in str(c.get("class", "")) else 0
+        par = [sv.get("par") or 1 for sv in c["svcs"]]
+        base = [sum(par[:i]) for i in range(len(par))]
+        wsvc = {base[i]: i for i in range(len(par)) if par[i] == 1}
+        pend, infl, top, top_busy = {}, {}, 0, False
+        for o, evs in zip(c["ops"], c.get("obs") or []):
+            for e in evs or []:
+                if e["t"] == "req" and "imm" not in e and par[e["s"]] == 1:
+                    pend[e["s"]] = pend.get(e["s"], 0) + (o.get("sz") or 0)
+                    if pend[e["s"]] > top:
+                        top, top_busy = pend[e["s"]], bool(infl.get(e["s"]))
+                elif e["t"] == "swap" and e["s"] in wsvc:
+                    pend[wsvc[e["s"]]] = 0
+                elif e["t"] == "send" and e["s"] in wsvc:
+                    infl[wsvc[e["s"]]] = True
+                elif e["t"] == "done" and e["s"] in wsvc:
+                    infl[wsvc[e["s"]]] = False
+        mibs = top / float(1 << 20)
+        pile["largest_pile_MiB"] = max(pile["largest_pile_MiB"], int(mibs))
+        pile["histogram_MiB"]["<1" if mibs < 1 else "1..50" if mibs <= 50 else "50..100" if mibs <= 100 else ">100"] += 1
+        if top > 50 * 1024 * 1024:
+            pile["scripts_piling_up_more_than_50MiB_between_two_swaps"] += 1
+            pile["of_those_while_a_Do_is_blocked"] += 1 if top_busy else 0
+    ck.extra.setdefault("input_distribution", {})["accounted_size_piled_up_between_two_swaps"] = pile
     ck.coverage["evaluations"] += len(cases)
     ck.coverage["distinct_nontrivial"] += len(distinct)
     ck.coverage["rule"] += ("service scripts: 1..3 real insert services (kinds uniformly among the six), maxQueueSize off/within reach/huge, "
                             "4..14 generated operations (Request 50%, PlanFlush, return of the blocked Do with success 2/3, Stop; one choice in eleven on a single-worker service plays the mid-swap scenario: "
                             "a request, then `mreq` = PlanFlush + a Request submitted while the fetch loop is blocked inside acquireColumns on the column-pool mutex the harness holds, then the two "
-                            "consecutive INSERTs answered with opposite outcomes) followed by a drain; "
+                            "consecutive INSERTs answered with opposite outcomes; one choice in twenty-five, once per script, plays the overload scenario: [a small request flushed and its Do left blocked,] "
+                            "4..7 requests accounted with 13..30 MiB each -- more than the 50 MiB of BANDWITH_LIMIT pile up in one service between two flushes --, then the blocked Do returns and the pile is flushed and answered) followed by a drain; "
                             "requests of 0, 1, 2..6 or 2000..11000 rows (quick tier: 2000..3500); one script in five draws a third of its requests from the malformed stream "
                             "(a column longer/shorter/empty, empty key column, foreign row, size 0); one in forty has a refused connection. "
                             "non-trivial = at least two requests with rows, a block sent and a Do returned; distinct by content. ")
